@@ -60,7 +60,7 @@ func outOfDomainOps(d *rj.Value, tier string) []r69.Op {
 
 func runC04Seq(ctx *core.Ctx, legacy bool, tier string) {
 	p := &seqProp{ID: "C04", Legacy: legacy, Judge: func(*seqRun) {}}
-	docs := []string{Dq[1], Dq[2], `{"":{"":1},"a":[[]]}`, `{}`, `[null]`}
+	docs := []string{Dq[1], Dq[2], `{"":{"":1},"a":[[]]}`, `{}`, `[null]`, `{"a":1,"a":2,"b":{"k":1,"k":[2]}}`}
 	if tier == "thorough" {
 		docs = append(docs, Dq[0], `[]`, `{"a":null}`)
 	}
@@ -172,7 +172,43 @@ func runEnsureBig(ctx *core.Ctx) {
 func runC04Decode(ctx *core.Ctx, tier string) {
 	texts := []string{`[{"op":"test","path":""}]`, `[{"op":"add"}]`, `[{}]`, `[null]`, `[{"op":null,"path":null,"from":null,"value":null}]`, `null`, `[{"op":"move","path":"/a"}]`,
 		`[{"op":"copy","path":"/a","from":1}]`, `[{"op":1,"path":1,"value":1}]`, `[{"op":"add","path":"/a","value":1}]`, `[{"value":[null]}]`, `[[]]`, `[1]`}
-	docs := []string{`{}`, `[]`, `{"a":1}`, `[1]`, `null`, `1`, `""`}
+	docs := []string{`{}`, `[]`, `{"a":1}`, `[1]`, `null`, `1`, `""`, `{"a":{"b":null},"c":[null]}`, `[[1],{"a":2}]`}
+	// every operation kind with every subset of its members missing or null, at root and non-root
+	// locations (the legacy DecodePatch accepts all of these; v5 rejects most at decode time)
+	seenT := map[string]bool{}
+	for _, t := range texts {
+		seenT[t] = true
+	}
+	for _, kind := range []string{"add", "remove", "replace", "move", "copy", "test", "bogus"} {
+		for _, path := range []string{"", "/a", "/0", "/zz", "/a/b", "/c/0"} {
+			for mask := 0; mask < 27; mask++ {
+				parts := []string{`"op":"` + kind + `"`}
+				for i, name := range []string{"path", "from", "value"} {
+					val := map[string]string{"path": `"` + path + `"`, "from": `"/a"`, "value": `{"x":[null]}`}[name]
+					switch (mask / []int{1, 3, 9}[i]) % 3 {
+					case 0:
+						parts = append(parts, `"`+name+`":`+val)
+					case 1: // missing
+					case 2:
+						parts = append(parts, `"`+name+`":null`)
+					}
+				}
+				t := "[{" + strings.Join(parts, ",") + "}]"
+				if !seenT[t] {
+					seenT[t] = true
+					texts = append(texts, t)
+				}
+				t2 := `[{"op":"add","path":"/q","value":1},{` + strings.Join(parts, ",") + `},{"op":"test","path":"/q","value":1}]`
+				if mask%3 != 0 || mask >= 9 {
+					if !seenT[t2] {
+						seenT[t2] = true
+						texts = append(texts, t2)
+					}
+				}
+			}
+		}
+	}
+	ctx.Count("c04_awkward_patch_texts", int64(len(texts)))
 	for _, t := range texts {
 		for _, d := range docs {
 			for _, legacy := range []bool{false, true} {
